@@ -493,7 +493,9 @@ pub fn run(ctx: &Ctx, sh: &mut Shard) {
             },
             _ => gen_any(&mut r, g),
         };
-        if a.n_segments() > 80 {
+        // one case in 50: a geometry of realistic size or with a node of high degree
+        let a = if k % 50 == 17 { let (x, cls) = gen_large(&mut r); sh.class(cls); x } else { a };
+        if a.n_segments() > 700 {
             continue;
         }
         if !a.valid() {
